@@ -943,6 +943,79 @@ func checkErr(r *Run, err error, ran []*call, cancelled bool) []Finding {
 	return out
 }
 
+// EagerPairs lists, for a flow scenario in which nothing fails, the pairs
+// "predicate of task i / task p" such that p provides an input of task i but is
+// not an ancestor of the predicate: the predicate is to be evaluated as soon as
+// its own inputs are there (C11), so with two workers some schedule must start
+// it without a happens-before edge from the return of p. Keys are "i/p".
+func EagerPairs(s *Scenario) []string {
+	if s.prog == nil || s.prog.Flow == nil || s.Instances > 1 || s.Cancel != "" || effLimit(s) < 2 {
+		return nil
+	}
+	for _, d := range s.Dec {
+		if d != probe.True {
+			return nil
+		}
+	}
+	f := s.prog.Flow
+	prov := f.Providers()
+	var anc func(ins []int, seen map[int]bool)
+	anc = func(ins []int, seen map[int]bool) {
+		for _, in := range ins {
+			pi, ok := prov[in]
+			if !ok || pi < 0 || seen[pi] {
+				continue
+			}
+			seen[pi] = true
+			anc(f.Tasks[pi].In, seen)
+			if f.Tasks[pi].Pred != nil {
+				anc(f.Tasks[pi].Pred.In, seen)
+			}
+		}
+	}
+	var out []string
+	for i, t := range f.Tasks {
+		if t.Pred == nil {
+			continue
+		}
+		a := map[int]bool{}
+		anc(t.Pred.In, a)
+		for _, in := range t.In {
+			if pi, ok := prov[in]; ok && pi >= 0 && !a[pi] && pi != i {
+				out = append(out, strconv.Itoa(i)+"/"+strconv.Itoa(pi))
+			}
+		}
+	}
+	return out
+}
+
+// EagerWitnessed returns the pairs of EagerPairs for which this execution
+// shows the predicate starting without happening-after the provider's return.
+func EagerWitnessed(r *Run, pairs []string) []string {
+	var out []string
+	pid := r.Sc.Prog
+	first := func(id string) *call {
+		for _, c := range r.Calls {
+			if c.ID == id {
+				return c
+			}
+		}
+		return nil
+	}
+	for _, k := range pairs {
+		var i, p int
+		fmt.Sscanf(k, "%d/%d", &i, &p)
+		pc, tc := first(pg.PredID(pid, i)), first(pg.TaskID(pid, p))
+		if pc == nil {
+			continue
+		}
+		if tc == nil || tc.End == nil || !vs.HB(tc.End.VC, pc.Ev.VC) {
+			out = append(out, k)
+		}
+	}
+	return out
+}
+
 func checkFlow(r *Run, inst int, o *probe.Out, byID map[string][]*call) []Finding {
 	var out []Finding
 	add := func(p, f string, a ...any) { out = append(out, Finding{p, fmt.Sprintf(f, a...)}) }
